@@ -272,8 +272,10 @@ class ODataLexer(Lexer):
         t.value = ast.Or()
         return t
 
-    # `a/not` is a path segment, not the start of a negation:
-    @_(rf"(?<!/){_kw('not')}{_RWS}")
+    # `a/not` is a path segment, not the start of a negation, and neither is a
+    # field called `not` in front of a closing parenthesis, a comma or a colon:
+    # a negation is followed by the start of its operand.
+    @_(rf"(?<!/){_kw('not')}{_RWS}(?=[\w'(+-])")
     def NOT(self, t):
         ":meta private:"
         t.value = ast.Not()
